@@ -1575,6 +1575,18 @@ class inplace_sequences:
         elif op == "out":
             da.add(x, 1, out=x)
             want = want + 1
+        elif op in ("set-ndarray-key-then-mutate-key", "set-list-key-then-mutate-key", "set-dask-key-then-mutate-key"):
+            # the assignment is lazy, but it is the assignment with the index as it was: changing the index object
+            # afterwards (NumPy array, list, or a dask index array assigned into in place) must not change x
+            if op == "set-ndarray-key-then-mutate-key":
+                k = np.array([1, 2])
+            elif op == "set-list-key-then-mutate-key":
+                k = [1, 2]
+            else:
+                k = da.from_array(np.array([1, 2]), chunks=2)
+            x[(k,)] = -1.0
+            want[[1, 2]] = -1.0
+            k[0] = 7
         elif op == "ccs":
             x = x[x > 6]
             derived = {"plus": x + 1}
@@ -1611,7 +1623,8 @@ class inplace_sequences:
 
     def domain(tier, rng):
         for ch in [(12,), (4, 4, 4), (5, 7), (1, 2, 9)]:
-            for op in ("set-int", "set-slice", "set-rev", "set-empty-rev", "set-mask", "set-masked", "out", "ccs"):
+            for op in ("set-int", "set-slice", "set-rev", "set-empty-rev", "set-mask", "set-masked", "out", "ccs",
+                       "set-ndarray-key-then-mutate-key", "set-list-key-then-mutate-key", "set-dask-key-then-mutate-key"):
                 for touch in (False, True):
                     yield {"chunks": ch, "op": op, "touch": touch}
 
